@@ -20,7 +20,7 @@ CMDS = ["address", "export", "public-key", "sign-message", "sign-transaction", "
 REQUIRED = (["ok-" + c for c in CMDS] + ["selector-default", "selector-index-nonzero", "selector-index-2^31-1", "selector-path", "password-nonempty",
             "flags-vs-env-identical", "both-selectors-flag+flag-refused", "both-selectors-flag+env-refused", "both-selectors-env+env-refused",
             "input-file", "input-stdin", "sign-raw-digest>=n-valid", "input-stdin>64KiB", "flag-beats-environment",
-            "explicit-empty-password-flag-beats-environment", "big-input-same-through-all-channels"])
+            "explicit-empty-password-flag-beats-environment", "big-input-same-through-all-channels", "decoy-keys-ignored-by-sign-and-hash"])
 
 
 def expected_sig_text(key, digest):
@@ -142,7 +142,30 @@ def judge_same_output(case, obs):
     return v.bucket("big-input-same-through-all-channels")
 
 
-JUDGES = {"cmd": judge_cmd, "conflict": judge_conflict, "same": judge_same_output}
+def judge_decoy_pair(case, obs):
+    """`hash transaction` and `sign transaction` on one document that carries foreign keys (from, type, input, ...). Whether such a
+    document is accepted is not specified, but both commands must agree, and if accepted the foreign keys change nothing."""
+    v = V()
+    if any(abnormal(o) or "exit" not in o for o in obs):
+        return v
+    h, s = obs
+    xm = case["x"]
+    if (h["exit"] == 0) != (s["exit"] == 0):
+        return v.bad("C16/decoy-keys/sign-and-hash-disagree", "foreign keys %s: `hash transaction` exit %d, `sign transaction` exit %d (%s)" % (
+            xm["decoys"], h["exit"], s["exit"], (s["stderr"] or h["stderr"])[-120:]))
+    if h["exit"] != 0:
+        v.nontrivial = False
+        return v.bucket("decoy-keys-rejected-by-both")
+    tx = txgen.tx_from_meta(xm["tx"])
+    hd = reftx.signing_hash(tx)
+    key = int(xm["key"], 16)
+    r, s_, par, _ = secp.sign_rfc6979(key, hd)
+    if h["stdout"].strip() != "0x" + hd.hex() or s["stdout"].strip() != "0x" + reftx.signed_bytes(tx, r, s_, par).hex():
+        return v.bad("C16/decoy-keys/changed-the-result", "foreign keys %s changed what is hashed / signed" % xm["decoys"])
+    return v.bucket("decoy-keys-ignored-by-sign-and-hash")
+
+
+JUDGES = {"cmd": judge_cmd, "conflict": judge_conflict, "same": judge_same_output, "decoy": judge_decoy_pair}
 
 
 def shards(tier, seed):
@@ -159,7 +182,10 @@ def _steps_for(rng, cmd, acc, xm):
             n = rng.choice([4095, 4096, 4097, 8191, 8192, 8193, 16384, 32768, 65535, 65536, 65537, 100000, 131072, 200000])  # buffer-size boundaries, more than one pipe buffer
         inp = rand_bytes(rng, min(n, 4096)) * (n // 4096 + 1)
         inp = inp[:n]
-        if rng.random() < 0.3:
+        if rng.random() < 0.1:
+            inner = rand_bytes(rng, rng.randrange(0, 30))
+            inp = rng.choice([b"\x19Ethereum Signed Message:\n%d" % len(inner) + inner, b"\x19Ethereum Signed Message:\n32" + rand_bytes(rng, 32), b"\x19\x01" + rand_bytes(rng, 64)])
+        elif rng.random() < 0.3:
             inp = rng.choice([b"\n", b"hello\n", b"hello\r\n", b"\nhello", b" hello ", b"\x00", b"hello\x00", b"\xef\xbb\xbfhello", inp + b"\n", b"\n" + inp])
     elif cmd in ("sign-transaction", "sign-transaction-sigonly", "hash-transaction"):
         tx = txgen.rand_tx(rng)
@@ -245,6 +271,26 @@ def gen(shard, rng, tier):
             aargv, env = cligen.account_args(rng, acc) if uses_account else ([], {})
             steps.append({"cli": {"argv": build(aargv), "env": env, "files": files, "stdin_hex": stdin_hex}})
         yield {"j": "cmd", "profile": profile, "x": xm, "steps": steps}
+        if i % 9 == 0:
+            import json as _json
+            tx = txgen.rand_tx(rng)
+            if tx["kind"] == reftx.LEGACY and tx.get("chainId") is None:
+                tx["chainId"] = 1
+            acc2 = cligen.rand_account(rng, simple=True)
+            key2 = cligen.account_key(acc2)
+            signer = eth.address_of_key(key2)
+            decoys = rng.sample([("from", _json.dumps(signer)), ("from", '"0x%s"' % rand_bytes(rng, 20).hex()), ("from", '"me"'), ("from", "null"), ("type", '"0x2"'), ("type", "0"),
+                                 ("input", '"0x%s"' % rand_bytes(rng, 4).hex()), ("gasLimit", "1"), ("hash", '"0x00"'), ("v", "27"), ("r", '"0x1"'), ("s", '"0x1"'), ("signature", '"0x"'),
+                                 ("chainID", "9"), ("maxFeePerBlobGas", "1"), ("nonce ", "1"), ("raw", '"0x"'), ("blockHash", "null"), ("yParity", '"0x1"')], rng.randint(1, 3))
+            doc = txgen.render(rng, txgen.tokens_for(rng, tx, spell=("dec", "hex", "int"))).strip()
+            extra = ",".join("%s:%s" % (_json.dumps(k), val) for k, val in decoys)
+            doc = "{" + (extra + "," + doc[1:-1] if rng.random() < 0.5 else doc[1:-1] + "," + extra) + "}"
+            files = {"tx.json": doc.encode().hex()}
+            env = {"MNEMONIC": " ".join(acc2["words"])}
+            steps = [{"cli": {"argv": ["hash", "transaction", "@FILE:tx.json@"], "files": files}},
+                     {"cli": {"argv": ["sign", "transaction", "@FILE:tx.json@"], "env": env, "files": files}}]
+            yield {"j": "decoy", "profile": profile, "steps": steps,
+                   "x": {"cls": "decoy-keys", "tx": txgen.tx_to_meta(tx), "key": "%064x" % key2, "decoys": [k for k, _ in decoys]}}
         if i % 12 == 0:
             how = rng.choice(["flag+flag", "flag+env", "env+env"])
             words = " ".join(acc["words"])
